@@ -982,13 +982,10 @@ def apath(body, x, depth=0, seen=None):
             else:
                 r = ('call:' + nm,)
         res.add(r)
-    if len(res) == 1:
-        r = res.pop()
-        if r is None:
-            return None
-        if r and r[0] == '__full__':
-            return r[1:]
-        return r + fields
+    # several definitions that denote the same path (a guard re-acquired on the same cell, a value re-bound) agree
+    fin = {None if r is None else (r[1:] if r and r[0] == '__full__' else r + fields) for r in res}
+    if len(fin) == 1:
+        return fin.pop()
     return None
 
 
